@@ -28,7 +28,9 @@ THEOREMS = ['GV.Multi.' + t for t in (
     'containsCoord_perm', 'intersectsSingle_perm', 'intersectsMulti_perm', 'singleIntersectsMulti_perm',
     'pointIntersectsMulti_perm', 'containsSingle_perm', 'containsMulti_perm', 'singleContainsMulti_perm',
     'bounds_is_union', 'bounds_empty', 'bounds_least', 'isUnion_unique', 'bounds_perm',
-    'split_spec', 'split_isolated', 'f04_counterexample')]
+    'split_spec', 'split_isolated', 'f04_counterexample',
+    'containsCoord_append', 'intersectsSingle_append', 'intersectsMulti_append_left', 'intersectsMulti_append_right',
+    'containsMulti_append_right', 'containsMulti_mono', 'intersectsMulti_mono', 'multi_empty_arg')]
 
 REL = {'i': 'intersects_shape', 'c': 'contains_shape'}
 
